@@ -298,7 +298,41 @@ def literal_ok(m, root, site_bis, lit):
                     none_t = [tb for v, tb in t['targets'] if str(v) == '0']
                     if none_t and all(root.dominates(none_t[0], x) for x in site_bis):
                         # the switched option must hold a map entry
-                        src = core.place_origins(root, rv['p'])
-                        if any(x[0] == 'call' for x in src):
+                        pure, why_not = _pure_lookup(m, root, core.place_origins(root, rv['p'], stop_at_calls=True))
+                        if pure:
                             return True, 'only on the branch where the key was absent'
+                        if why_not:
+                            return False, why_not
     return False, 'stored for a key that may already exist (its version falls)'
+
+
+_PURE = ('std::option::Option::map', 'std::option::Option::cloned', 'std::option::Option::copied', 'std::option::Option::as_ref',
+         'std::option::Option::as_deref', 'std::clone::Clone::clone', 'std::option::Option::as_mut', 'std::borrow::ToOwned::to_owned')
+_LOOKUPS = ('std::collections::HashMap::get', 'std::collections::HashMap::get_mut', 'std::collections::HashMap::remove',
+            'std::collections::HashMap::insert', 'std::collections::HashMap::get_key_value')
+
+
+def _pure_lookup(m, b, roots, depth=0):
+    """is the Option the plain answer of a map lookup (Some exactly when the key is in the map)?  Adaptors that keep
+    Some/None as it is are looked through; a predicate (filter / and_then / ...) makes "None" mean "absent OR rejected"."""
+    why = None
+    for r in roots:
+        if r[0] != 'call' or depth > 8:
+            continue
+        t = b.term(r[1])
+        d = callee_decl(t)
+        if d in _LOOKUPS:
+            return True, None
+        cb = m.prog.bodies.get(callee(t))
+        if cb is not None and cb.locals[0].startswith('std::option::Option<nundb::bo::Value'):
+            return True, None
+        if d in _PURE and t['args']:
+            ok, w = _pure_lookup(m, b, origins(b, t['args'][0], stop_at_calls=True), depth + 1)
+            if ok:
+                return True, None
+            why = why or w
+        elif d.startswith('std::option::Option::'):
+            why = ('the "absent" decision is taken on the result of %s, not on the map lookup itself: an entry that is present but '
+                   'rejected by the predicate (a tombstone) is replaced by a fresh Value and loses its disk offsets, state and version'
+                   % d.split('::')[-1])
+    return False, why
